@@ -90,8 +90,11 @@ def finish(res, tier, seed, t0, explanation, assumptions, checker_cmd, trusted_b
     violations = []
     known_hit = []
     for o in failed:
-        if o.key in open_known:
-            known_hit.append((o, open_known[o.key]))
+        e = open_known.get(o.key)
+        # an entry may pin the specific failure (msg_contains): a different failure at the same
+        # site is still a violation
+        if e is not None and (not e.get("msg_contains") or e["msg_contains"] in o.msg):
+            known_hit.append((o, e))
         else:
             violations.append(o)
     stale = [e for k, e in open_known.items() if k not in {o.key for o in failed}]
